@@ -293,6 +293,19 @@ def run(ctx):
                     'implementation_result': exp[:2000]}, found_input=False)
             ctx.extra[f'correspondence_{name}_cases'] = len(cases)
             ctx.extra[f'correspondence_{name}_disagreements'] = len(bad)
+    # ---- concurrent correlator calls with a suspending send_error hook (the scripts and the real-code runner of C14): a response may only
+    #      match a request that is still outstanding - not one already reported as timed out
+    from fractions import Fraction
+    from harness import C14
+    for j in range(120 if ctx.thorough else 40):
+        ttl = Fraction(rng.choice([1, 2, 15]))
+        script = C14.gen_script(rng, rng.randint(6, 14), ttl)
+        _obs, hooklog, executed, info = asyncio.run(C14.run_real(script, ttl))
+        ctx.case(('concurrent', repr(script)), nontrivial=bool(hooklog))
+        ctx.count('concurrent_script')
+        msg = C14.oracle(ttl, hooklog, executed, info)
+        if msg and ('answered' in msg or 'twice' in msg):
+            ctx.violation(f'a response matched a request that was no longer outstanding: {msg}', {'function': 'concurrent', 'script': repr(script)[:1500], 'ttl': str(ttl)})
     return ctx.finish()
 
 
